@@ -40,6 +40,24 @@ pub fn gen(tier: &str, seed: u64) -> Gen {
         }
     }
     fams.push(("string length / range over strings of mixed-width characters x index pairs (incl. i64 extremes)".to_string(), n, thorough));
+    // first/last: every haystack, every character of it as the needle, every start / last index
+    let mut nf = 0;
+    for st in &strs {
+        let cs: Vec<char> = st.chars().collect();
+        if cs.len() < 2 { continue; }
+        let mut seen: Vec<char> = Vec::new();
+        for &c in &cs {
+            if seen.contains(&c) { continue; }
+            seen.push(c);
+            for i in 0..=cs.len() {
+                if !thorough && !rng.chance(1, 2) { continue; }
+                cases.push(cmd(vec![s("string"), s("first"), c.to_string(), st.clone(), i.to_string()]));
+                cases.push(cmd(vec![s("string"), s("last"), c.to_string(), st.clone(), i.to_string()]));
+                nf += 2;
+            }
+        }
+    }
+    fams.push(("string first / last: every mixed-width haystack x each of its characters as needle x every start / last index".to_string(), nf, thorough));
     let per = if thorough { 60_000 } else { 1200 };
     let mut m = 0;
     for _ in 0..per {
